@@ -62,3 +62,42 @@ func Verif_C20_request_names_exactly_what_was_asked() {
 		len(template.ExtraExtensions[0].Value) == 1, template.ExtraExtensions[0].Value[0] == 0x42,
 		len(template.DNSNames) == 0, len(template.IPAddresses) == 0, template.Subject.CommonName == "alice"))
 }
+
+// Verif_C20_tooling_passes_node_ids_through: the cert-makereq command (MakeReqConfig.Run) with node IDs
+// that contain bytes which mean something to a command line - a comma, a space, an equals sign, a colon,
+// or any one arbitrary byte: node IDs are arbitrary strings and the request asks for exactly the IDs
+// the caller named, each one whole (MakeReq replaced by a capture of its options).
+func Verif_C20_tooling_passes_node_ids_through() {
+	var got *CertOptions
+	verifapi.Redirect("github.com/ansible/receptor/pkg/certificates.MakeReq", func(opts *CertOptions, keyIn, keyOut, reqOut string, osWrapper Oser) error {
+		got = opts
+		return nil
+	})
+	var id string
+	switch verifapi.Choose(6) {
+	case 0:
+		id = "site-a,rack-7"
+	case 1:
+		id = "a b"
+	case 2:
+		id = "k=v"
+	case 3:
+		id = "n:1"
+	case 4:
+		id = ","
+	case 5:
+		id = "x" + verifapi.String(1) + "y"
+	}
+	second := verifapi.Bool()
+	ids := []string{id}
+	if second {
+		ids = append(ids, "other")
+	}
+	mr := MakeReqConfig{CommonName: "cn", Bits: 2048, NodeID: ids, DNSName: []string{"host.example"}, OutReq: "/r", OutKey: "/k"}
+	err := mr.Run()
+	verifapi.Cover("request-made")
+	verifapi.Assert("request-made-without-error", err == nil && got != nil)
+	verifapi.Assert("as-many-node-ids-as-were-named", len(got.NodeIDs) == len(ids))
+	verifapi.Assert("each-node-id-passed-through-whole", verifapi.All(got.NodeIDs[0] == id, !second || got.NodeIDs[1] == "other"))
+	verifapi.Assert("dns-names-passed-through", len(got.DNSNames) == 1 && got.DNSNames[0] == "host.example")
+}
